@@ -69,6 +69,18 @@ Definition check_c (k : c_case) : bool :=
       agree (t_norm (c_q k) true tw p (cmod dr di)) (c_out k)
   end.
 
+(* ---- complex spaces of any nesting: inner product on (re, im) element trees ---- *)
+Record ct_case := { t_q : quirks; t_s : @space Q; t_xr : @elem Q; t_xi : @elem Q; t_yr : @elem Q; t_yi : @elem Q;
+                    t_out : impl_out; t_out_im : Q }.
+Definition check_ct (k : ct_case) : bool :=
+  match csp_inner (t_q k) (t_s k) (t_xr k) (t_xi k) (t_yr k) (t_yi k), t_out k with
+  | Ok (re, im), IVal v => Qclose atol rtol v re && Qclose atol rtol (t_out_im k) im
+  | NotImpl, INotImpl => true
+  | ValueErr, IValueErr => true
+  | IndexErr, IIndexErr => true
+  | _, _ => false
+  end.
+
 (* ---- partitions: grid ends, stride/cell side, boundary fractions, cell volume ---- *)
 Record p_case := { p_n : nat; p_a : Q; p_b : Q; p_bl : bool; p_br : bool;
                    p_g0 : Q; p_g1 : Q; p_side : Q; p_fl : Q; p_fr : Q }.
